@@ -17,6 +17,42 @@
 
 using verif::Tracked;
 typedef tlx::RingBuffer<Tracked, verif::CountingAlloc<Tracked>> RB;
+
+// an allocator with identity: instances compare equal only when they carry the same id, and a block must be released
+// through an allocator equal to the one that produced it (exercises the `alloc_ != rb.alloc_` branch of copy-assignment
+// and the allocator hand-over of the move operations)
+#include <map>
+template <typename T>
+struct IdAlloc {
+    using value_type = T;
+    using size_type = std::size_t;
+    using difference_type = std::ptrdiff_t;
+    using pointer = T*;
+    using const_pointer = const T*;
+    using reference = T&;
+    using const_reference = const T&;
+    int id;
+    explicit IdAlloc(int i = 0) noexcept : id(i) {}
+    template <typename U> IdAlloc(const IdAlloc<U>& o) noexcept : id(o.id) {}
+    template <typename U> struct rebind { using other = IdAlloc<U>; };
+    static std::map<const void*, int>& owner() { static std::map<const void*, int> m; return m; }
+    T* allocate(size_t n) { T* p = verif::CountingAlloc<T>().allocate(n); owner()[p] = id; return p; }
+    void deallocate(T* p, size_t n) {
+        if (p) {
+            auto it = owner().find(p);
+            if (it != owner().end() && it->second != id) verif::AllocLedger::get().err("block released through an unequal allocator", p);
+            if (it != owner().end()) owner().erase(it);
+        }
+        verif::CountingAlloc<T>().deallocate(p, n);
+    }
+    template <typename U, typename... Args> void construct(U* p, Args&&... args) { ::new (static_cast<void*>(p)) U(std::forward<Args>(args)...); }
+    template <typename U> void destroy(U* p) { p->~U(); }
+    friend bool operator==(const IdAlloc& a, const IdAlloc& b) { return a.id == b.id; }
+    friend bool operator!=(const IdAlloc& a, const IdAlloc& b) { return a.id != b.id; }
+};
+typedef tlx::RingBuffer<Tracked, IdAlloc<Tracked>> RBI;
+static RB* make_rb(RB*, int) { return new RB(); }
+static RBI* make_rb(RBI*, int id) { return new RBI(IdAlloc<Tracked>(id)); }
 typedef tlx::SimpleVector<Tracked> SV;
 
 static std::vector<std::vector<long>> parse_ops(std::istringstream& in, std::vector<std::string>& names) {
@@ -48,13 +84,13 @@ static std::string final_status() {
     return "ok";
 }
 
-static void run_ring(std::istringstream& in) {
-    std::vector<std::string> names; auto ops = parse_ops(in, names);
+template <typename RB>
+static std::string run_ring_t(const std::vector<std::string>& names, std::vector<std::vector<long>>& ops) {
     reset_ledgers();
     std::ostringstream out;
     {
         std::unique_ptr<RB> r[3];
-        for (auto& p : r) p.reset(new RB());
+        for (int i = 0; i < 3; ++i) r[i].reset(make_rb(static_cast<RB*>(nullptr), i + 1));
         for (size_t k = 0; k < ops.size(); ++k) {
             const std::string& n = names[k]; auto& f = ops[k]; RB& x = *r[f[0]];
             if (n == "A") x.allocate(f[1]);
@@ -100,7 +136,14 @@ static void run_ring(std::istringstream& in) {
         }
     }
     out << "final=" << final_status();
-    puts(out.str().c_str());
+    return out.str();
+}
+
+static void run_ring(std::istringstream& in) {
+    std::vector<std::string> names; auto ops = parse_ops(in, names);
+    std::string a = run_ring_t<RB>(names, ops), b = run_ring_t<RBI>(names, ops);
+    if (a != b) a += " !unequal-allocators:" + b;
+    puts(a.c_str());
 }
 
 static void run_svec(std::istringstream& in) {
